@@ -5,20 +5,28 @@ the guard ImmFits, build picks the first matching form and keeps the operands) i
 all values; the Go assembler's behaviour is a MEASURED oracle, re-measured on every run."""
 import collections, os, re, subprocess
 
-from ..modules import REGS, CONSTS
+from ..modules import REGS, C05CONSTSAMPLES
 from .. import core
 
-GO_FILES = ["c05.go", "c05gen.go", "c05asm.go", "c05emit.go", "c05intel.go", "gen_consts.go"]
-PROPS = ["AvoVerif.Props.C05", "AvoVerif.Props.C05Tables", "AvoVerif.Props.C05Build"]
+GO_FILES = ["c05.go", "c05gen.go", "c05asm.go", "c05emit.go", "c05intel.go", "c05gen_constsamples.go"]
+PROPS = ["AvoVerif.Props.C05", "AvoVerif.Props.C05Tables", "AvoVerif.Props.C05Build", "AvoVerif.Props.C05Judge", "AvoVerif.Props.C05Line"]
 
 
 def run(ctx):
-    ctx.level = "proof"
-    ctx.coverage["proof_partial"] = ("avo-side theorems proved for all values; the assembler's reading of the text "
-                                     "(asmImm, register numbering, access widths) is measured on every run")
+    ctx.level = "proof"   # the evidence schema knows "proof" only; the partiality is stated in coverage["proof_partial"]
+    ctx.coverage["proof_partial"] = (
+        "PROOF-PARTIAL (DESIGN §4 C05). Proved in Lean for all inputs: (1) operand text rendering is invertible on well-formed "
+        "operands (parseOp_asm, line_roundtrip); (2) under the guards ImmFits and ImmRepresentable the printed constant is read "
+        "back as the constant given (asmImm_preserves); (3) build returns the first matching form with the operands kept; "
+        "(4) the acceptor applied to the decoded machine instruction is sound for its declarative statement (judgeO_sound: "
+        "mnemonic admitted, every operand aligned with a decoded argument that denotes the same hardware register / the same "
+        "base, index, scale, displacement, access width / the same constant at the operation's width). NOT proved, MEASURED on "
+        "sampled instances on every run: that the Go assembler turns the printed text into that machine instruction (the "
+        "assembler and the two decoders are oracles), and that the form table lists the right widths — no theorem quantifies over "
+        "avo's 12 025 forms for the clauses `accepted by the assembler`, `named operation`, `same registers`, `access width`.")
     if not ctx.build_harness(GO_FILES):
         return
-    ctx.regen([REGS, CONSTS])
+    ctx.regen([REGS, C05CONSTSAMPLES])
     ctx.forbidden_scan()
     # the driver (renderer, parser, asmImm, judge) must build even when a table theorem breaks
     if not ctx.build_driver():
@@ -29,58 +37,148 @@ def run(ctx):
         ctx.leanchecker(PROPS)
 
     nontrivial = lambda req, resp: req.startswith("accept-asm") or req.startswith("asm-text m:") or req.startswith("asm-text i:")
+    tags = []
     if ctx.replay:
         ctx.differential("c05", 0, nontrivial=nontrivial, max_report=10 ** 6)
+        tags.append("c05")
     else:
         ctx.run_corpus("c05", nontrivial=nontrivial, max_report=10 ** 6)
+        tags.append("c05-corpus")
         if ctx.tier == "quick":
-            ctx.differential("c05", 4000, nontrivial=nontrivial, max_report=10 ** 6, timeout=1500)
+            ctx.differential("c05", 2000, nontrivial=nontrivial, max_report=10 ** 6, timeout=1500)
+            tags.append("c05")
         else:
             ctx.differential("c05", 0, extra=["-reps", "12"], nontrivial=nontrivial, max_report=10 ** 6, timeout=3000)
             base = ctx.seed
             ctx.seed = base * 1000003 + 1
             ctx.differential("c05", 0, extra=["-reps", "8"], tag="-s2", nontrivial=nontrivial, max_report=10 ** 6, timeout=3000)
             ctx.seed = base
-    _summarise(ctx)
+            tags += ["c05", "c05-s2"]
+    verdicts = _summarise(ctx, tags)
+    if not ctx.replay:
+        _floors(ctx, verdicts)
 
     ctx.coverage["rule"] = (
-        "sampled instances of every instruction form (quick: ~4000 instances over all opcodes; thorough: every form x 12 + "
-        "every form x 8 under a second seed), operands boundary-biased (immediates 0, 1, 2^(n-1)-1, 2^(n-1), 2^n-1, -1, -2^(n-1) in "
-        "signed and unsigned constant types; every physical register of each class incl. SP/BP/R12/R13 as base, R8-R15, "
-        "AH..BH, X16-X31 for EVEX forms, K0-K7; displacements 0, +-small, 8-bit and 32-bit limits; scale 1/2/4/8; with/without "
-        "index; sym+off(FP)/(SP)/(SB)); built through x86.VerifBuild (the code path of every generated constructor), printed "
-        "by printer.NewGoAsm (one TEXT symbol per instruction), assembled by `go tool asm`, machine code read back with "
-        "`go tool objdump`, decoded by binutils objdump (Intel syntax, all extensions incl. EVEX) with x86asm as a second "
-        "reader for legacy encodings. Requests: asm-text (model renderer == Asm(), exact), accept-parse / accept-line (Lean's "
-        "independent parser reads the implementation's text back as the operands given), accept-asm (Lean's judge: assembler "
-        "accepted; mnemonic is the named operation; every register is the same hardware register and width; base, index, "
-        "scale, displacement, relocation target and access width equal; immediate as extended by the CPU equals the constant "
-        "— via asmImm/immWanted of the model). Side streams: near-miss operands (constructor must reject or the instruction "
-        "is judged like any other), malformed memory references, X16-X31 in non-EVEX forms, K0 as write mask.")
+        "quick: EVERY row of the compiled form table once (12 025) + 2000 further instances spread over the opcodes + per operand "
+        "type 16-48 well-typed instances and 10 near misses aimed at that operand; thorough: every form x 12 + every form x 8 under "
+        "a second seed + per-type floors x 4. Each row is exercised through the constructor whose form range contains it "
+        "(x86.VerifOpcodeForms), whatever opcode the row names. Operands boundary-biased (immediates 0, 1, 2^(n-1)-1, 2^(n-1), 2^n-1, "
+        "-1, -2^(n-1) in signed and unsigned constant types; every physical register of each class incl. SP/BP/R12/R13 as base, "
+        "R8-R15, AH..BH, X16-X31 for EVEX forms, K0-K7; displacements 0, +-small, 8-bit and 32-bit limits; scale 1/2/4/8; with/without "
+        "index; sym+off(FP)/(SP)/(SB)); built through x86.VerifBuild (= build(opcode.Forms(), suffixes, operands), the body of every "
+        "generated constructor), printed by printer.NewGoAsm (one TEXT symbol per instruction; a quarter of them with a second, longer "
+        "opcode in the block so that the printer's opcode padding is exercised), assembled by `go tool asm`, machine code read back "
+        "with `go tool objdump`, decoded by binutils objdump (Intel syntax, all extensions incl. EVEX) with x86asm as a second reader "
+        "for legacy encodings. Requests: asm-text (model renderer == Asm(), exact, for registers / memory references / labels / "
+        "relative offsets), accept-parse / accept-line (Lean's independent parser reads the implementation's text back as the operand "
+        "given; constants: any spelling that the assembler reads as the same integer; the line: opcode.suffixes, blanks, operands "
+        "separated by commas outside parentheses), accept-asm (Lean's judge, sound for `Agrees` by judgeO_sound: assembler accepted; "
+        "mnemonic is the named operation; every register is the same hardware register and width; base, index, scale, displacement, "
+        "relocation target and access width equal; immediate as extended by the CPU equals the constant). Side streams: near-miss "
+        "operands incl. a valid call followed by a same-width neighbour of a fixed register (constructor must reject, or the "
+        "instruction is judged like any other), malformed memory references, accepted operand shapes whose text the assembler reads "
+        "differently (labels/parameters named like registers, FP/SB without symbol, symbol on a hardware base, non-identifier symbol "
+        "names), X16-X31 in non-EVEX forms, K0 as write mask. Known findings suppress a failing line only when BOTH the request "
+        "regex and the verdict regex (the failure class answered by the model) match. Lower bounds on the number of judged cases per "
+        "class (coverage[\"floors\"]) are obligations.")
     ctx.assumptions += [
-        "the Go assembler and the decoders are the oracle: `go tool asm`/`go tool objdump` of GOROOT, binutils objdump, x/arch x86asm",
-        "asmImm (how the assembler + CPU read an immediate in context) and the Intel register numbering are models, validated on "
-        "every run against the decoded bytes (a disagreement is reported as bad-asm-model / bad-reg)",
+        "the Go assembler and the decoders are the oracle: `go tool asm`/`go tool objdump` of GOROOT, binutils objdump, x/arch x86asm; "
+        "the assembler's encoder is exercised only on the sampled instances (modelled-not-verified beyond them): no theorem quantifies "
+        "over avo's forms for `accepted`, `named operation`, `same registers`, `access width`, `4-byte never 8-byte`",
+        "asmImm (how the assembler + CPU read an immediate in context), immCtxOf (which context a form's immediate stands in), hwReg "
+        "(Intel register names -> class/number/width) are MODELS, validated on every run against the decoded bytes (a disagreement is "
+        "reported as bad-asm-model / bad-imm / bad-reg)",
         "operand order: Intel order is the reverse of the Go order except CMPx (same order) and CMPPS/CMPPD/CMPSS/CMPSD (imm last); "
-        "XCHG/TEST are treated as symmetric",
-        "mnemonic normalisation Go opcode -> decoder mnemonic is by rule (lower case, size suffix B/W/L/Q or X/Y/Z dropped, "
-        "condition codes by number) plus the reviewed table Model/AsmJudge.lean `mnemTable`",
-        "the assembler's encoder is exercised only on the sampled instances (modelled-not-verified beyond them)",
+        "XCHG/TEST are treated as symmetric (either order accepted)",
+        "mnemonic normalisation Go opcode -> decoder mnemonic is by rule (lower case, ONE size suffix B/W/L/Q or X/Y/Z may be dropped "
+        "— so a decoded name equal to the opcode minus its last letter is accepted —, condition codes by number) plus the reviewed "
+        "table Model/AsmJudge.lean `mnemTable`",
+        "judge leniencies (all in Model/AsmJudge.lean): (a) zeroExtEquiv: a 64-bit destination decoded as its 32-bit view is accepted "
+        "for `mov r32, imm<2^32`, MOVLQZX and crc32; (b) matchSeq/looksImplicit: decoded arguments without a Go operand are skipped "
+        "when they look implicit (al/ax/eax/rax/cl/dx/ecx/edx/rcx/rdx/xmm0/st, [rsi]/[rdi]/[rbx] string operands, the constant 1); "
+        "(c) the segment field of a memory argument is not compared; (d) XCHGQ AX, AX decoded as rex.W nop is accepted; (e) FP "
+        "references are judged as rsp+disp+8 (frame size 0, NOSPLIT); (f) the access width is compared only where the operand "
+        "type names one (m8..m512): not for `m` (LEA, prefetch, ...), vm32*/vm64* (VSIB), nor when a decoder reports no width",
+        "decoder output is rewritten by the harness before judging (harness/c05intel.go, c05emit.go): cmp<pred>ps/pd/ss/sd, "
+        "vpcmp<pred><t> and pclmul<h|l>q<h|l>qdq pseudo-mnemonics are turned back into the base mnemonic + immediate taken from the "
+        "last code byte; for CALL the call instruction is picked out of the frame the assembler wraps around it",
+        "the form whose operand types (`sig`) the judge uses is recomputed by the harness (c05MatchedForm: first row of the called "
+        "opcode's range whose suffixes, arity and operand classes match, via x86.VerifMatch), not reported by build itself",
+        "C05 calls x86.VerifBuild, never the 3 205 generated constructors/methods/globals by name: that each of them forwards its "
+        "arguments to build unchanged is C06's statement (C06_tables + by-name wrappers)",
+        "generator limits: physical registers only (no virtual registers); negative imm8 on vector/opmask forms kept at 1/8 of "
+        "the imm8 samples (they are rejected by the assembler: finding C05-imm8-negative); a well-typed instance the constructor "
+        "rejects is dropped and counted (form_ctor_rejected, floor: <= 2 %); a side stream that has no instance for a row falls back "
+        "to the plain form (counted: fallback_to_form_*); every operand.Rel instance is rejected by the assembler (finding "
+        "C05-rel-syntax), so rel8/rel32 + Rel is never validated positively",
+        "unproved glue: the request parsers of Drv/C05.lean; the tolerant line splitter splitOpsTol is part of the STATEMENT of "
+        "accept-line (LineAgrees; lineErr_sound) — that it agrees with the strict splitter splitOps of the theorem line_roundtrip on "
+        "the printer's own format is checked on examples only; harness/c05intel.go",
     ]
     ctx.trusted += [
         "go tool asm / go tool objdump of the installed toolchain, binutils objdump 2.40, golang.org/x/arch/x86/x86asm as ground truth for the measured part",
-        "harness/c05intel.go (canonicaliser of objdump's Intel syntax) is trusted glue",
+        "harness/c05intel.go (canonicaliser of objdump's Intel syntax), harness/c05emit.go c05Decode (selection/rewrites of decoder output) are trusted glue",
+        "harness/formsdb.go reads the operand-type / implicit-register / suffix-class enum names from the const blocks of x86/zoptab.go "
+        "(go/ast, by name prefix): moving or renaming those enums breaks the harness (reported as a broken obligation, not silence)",
     ]
 
 
-def _summarise(ctx):
-    """Verdict classes of the accept-asm lines of this run (for the evidence file)."""
+# Lower bounds on what a run must have judged (quick tier: every form once + 2000 + per-type floors; the thorough tier has
+# >= 10x more of everything):
+# a generator, filter or table change that silently drops a class of cases is a broken obligation, not silence.
+FLOORS = {
+    "form_ctor_accepted": 11000,     # well-typed instances the constructor accepted
+    "assembled": 11000,              # ... that the assembler accepted and that were decoded and judged
+    "type_imm8": 300, "type_imm16": 40, "type_imm32": 40, "type_imm64": 20,
+    "const_u8": 150, "const_i8": 60, "const_u16": 15, "const_i16": 15, "const_u32": 15, "const_i32": 15, "const_u64": 8, "const_i64": 8,
+    "feat_rel": 40, "feat_label": 30, "feat_sym": 200, "feat_hi8": 5, "feat_rex": 500, "feat_hivec": 300,
+    "type_al": 5, "type_cl": 10, "type_ax": 5, "type_eax": 5, "type_xmm0": 5,
+    # near misses tried (rejected by the constructor, or accepted and then judged like any other instruction)
+    "tried_nearmiss:fixed-reg-view": 15, "tried_nearmiss:fixed-reg-sibling": 15, "tried_nearmiss:imm-wider": 30,
+    "tried_nearmiss:reg-size": 80, "tried_nearmiss:mem-shape": 50, "tried_nearmiss:rel-kind": 10,
+    "stream_shape": 40, "stream_malformed": 40, "stream_hivec": 10, "stream_k0mask": 2,
+    "padded_block": 400,             # instruction lines printed in a block with a longer opcode (goasm.flush padding)
+    "x86asm_width_available": 300,   # access width confirmed by the second decoder
+}
+
+
+def _floors(ctx, verdicts):
+    dist = ctx.coverage.get("input_distribution", {})
+    st = dist.get("c05")
+    if not isinstance(st, dict):
+        ctx.obligation_failures.append(("c05: statistics", "no input distribution written by the harness"))
+        return
+    st = dict(st)
+    for k in FLOORS:
+        if k.startswith("tried_"):
+            st[k] = st.get("accepted_" + k[6:], 0) + st.get("rejected_" + k[6:], 0)
+    low = {k: (st.get(k, 0), v) for k, v in FLOORS.items() if st.get(k, 0) < v}
+    if st.get("opcodes_covered", 0) != st.get("opcodes_total", -1):
+        low["opcodes_covered"] = (st.get("opcodes_covered", 0), st.get("opcodes_total", -1))
+    # a well-typed instance of a form that the constructor REJECTS is dropped by the generator (C06 judges completeness):
+    # more than 2 % of them means the generator and the table have drifted apart and coverage is gone
+    rej, acc = st.get("form_ctor_rejected", 0), st.get("form_ctor_accepted", 0)
+    if rej * 50 > acc:
+        low["form_ctor_rejected"] = (rej, f"<= 2% of {acc}")
+    if st.get("no_matched_form", 0) * 50 > acc:
+        low["no_matched_form"] = (st.get("no_matched_form", 0), f"<= 2% of {acc}")
+    if verdicts.get("ok", 0) < 10000:
+        low["accept-asm judged ok"] = (verdicts.get("ok", 0), 10000)
+    # every row of the table is instantiated once per run; rows that are never the FIRST match of their own operands
+    # (shadowed by an earlier row, e.g. `imm32, rax` behind `imm32, r64`: 91 today) are the only ones not covered
+    if st.get("forms_covered", 0) + 300 < st.get("forms_total", 10 ** 9):
+        low["forms_covered"] = (st.get("forms_covered", 0), f'{st.get("forms_total")} - 300')
+    ctx.coverage["floors"] = {k: v for k, v in FLOORS.items()}
+    if low:
+        ctx.obligation_failures.append(("c05: sample floors", "judged cases below the floor (got, floor): " + repr(low)))
+
+
+def _summarise(ctx, tags):
+    """Verdict classes of the accept-asm lines of THIS run (only the files this run wrote)."""
     classes = collections.Counter()
     streams = collections.Counter()
-    for fn in os.listdir(ctx.dir):
-        if not fn.endswith(".ops"):
-            continue
-        base = os.path.join(ctx.dir, fn[:-4])
+    for tag in tags:
+        base = os.path.join(ctx.dir, tag)
         try:
             with open(base + ".ops") as fo, open(base + ".model") as fm:
                 for req, resp in zip(fo, fm):
@@ -99,3 +197,4 @@ def _summarise(ctx):
         ctx.coverage["mnemonic_unchecked_opcodes"] = p.stdout.split()[1:]
     except Exception:
         pass
+    return classes
